@@ -538,15 +538,17 @@ class Interp:
                         t.used = False
                     out.append(t)
                     return
+                # method call on a local object (reader: d.addSignal(...)); arguments that read the stream are decoded first
+                if isinstance(v.func, ast.Attribute) and isinstance(v.func.value, ast.Name) and not self.is_stream(v.func.value) \
+                        and not any(self.is_stream(a) for a in list(v.args) + [k.value for k in v.keywords]) \
+                        and (not self.mentions_stream(v) or v.func.value.id in self.env):
+                    args = [self.extract(a, out) if self.mentions_stream(a) else self.ev(a) for a in v.args]
+                    kwargs = {k.arg: (self.extract(k.value, out) if self.mentions_stream(k.value) else self.ev(k.value)) for k in v.keywords if k.arg}
+                    out.append(CallOn(node=st, var=v.func.value.id, meth=v.func.attr, args=args, kwargs=kwargs))
+                    return
                 if self.mentions_stream(v):
                     # e.g. np.array(f32.bread(..)) as a statement
                     self.extract(v, out, used=False)
-                    return
-                # method call on a local object (reader: d.addSignal(...))
-                if isinstance(v.func, ast.Attribute) and isinstance(v.func.value, ast.Name):
-                    out.append(CallOn(node=st, var=v.func.value.id, meth=v.func.attr,
-                                      args=[self.ev(a) for a in v.args],
-                                      kwargs={k.arg: self.ev(k.value) for k in v.keywords if k.arg}))
                     return
                 if isinstance(v.func, ast.Attribute) and norm(v.func) == "super().__init__":
                     return
@@ -569,6 +571,11 @@ class Interp:
             return
         if isinstance(st, ast.AugAssign):
             if self.mentions_stream(st):
+                if isinstance(st.target, ast.Name) and not self.mentions_stream(st.target):
+                    # x op= <stream read>  is  x = x op <stream read>
+                    cur = ast.Name(id=st.target.id, ctx=ast.Load())
+                    self.assign(st.target, ast.BinOp(left=cur, op=st.op, right=st.value), st, out)
+                    return
                 self.err(st, "augmented assignment over the stream")
             if isinstance(st.target, ast.Name):
                 cur = self.env.get(st.target.id, N(st.target.id))
